@@ -1398,3 +1398,16 @@ Example ex_transitive_chain :
   eps_compare ex_cfg ex_c ex_b = Some (-1) /\ eps_compare ex_cfg ex_b ex_a = Some (-1) /\
   eps_compare ex_cfg ex_c ex_a = Some (-1).
 Proof. repeat split; vm_compute; reflexivity. Qed.
+
+(* the invariant theorem applies to that history (hypotheses satisfiable, conclusion non-trivial:
+   two members, a rejected twin, a same-box replacement, counter 3 < 4 accepted) *)
+Example ex_einv : EInv ex_cfg [ex_a; ex_b; ex_c; ex_e; ex_d; ex_f] [ex_c; ex_f] 3%nat.
+Proof.
+  destruct ex_wf as [Wc Wl0].
+  assert (Wl : Forall (wf_sol ex_cfg) [ex_a; ex_b; ex_c; ex_e; ex_d; ex_f]).
+  { rewrite Forall_forall in *. intros x Hx. apply Wl0. simpl in *. tauto. }
+  destruct (eps_box_run_inv ex_cfg [ex_a; ex_b; ex_c; ex_e; ex_d; ex_f] Wc Wl) as [a [imp [E I]]].
+  pose proof (proj1 ex_history) as H.
+  assert (X : Some (a, imp) = Some ([ex_c; ex_f], 3%nat)) by (rewrite <- E; exact H).
+  injection X as -> ->. exact I.
+Qed.
